@@ -83,6 +83,33 @@ theorem storage_eq_memory (s : List Char) : parseStorage s = parseMemory s := by
   unfold parseStorage parseMemory
   rw [memory_storage_same_grammar.1, memory_storage_same_grammar.2]
 
+private theorem parseBytes_ne_noMatch (sufs : List String) (allowB : Bool) (s : List Char) :
+    parseBytes sufs allowB s ≠ .noMatch ↔ (matchSize sufs allowB s).isSome = true := by
+  unfold parseBytes
+  cases matchSize sufs allowB s with
+  | none => simp
+  | some g =>
+    simp only [Option.isSome_some, iff_true]
+    split
+    · split <;> simp
+    · simp
+
+/-- **grammar_same_client_server**: the job validator of the server (`regex(PAT, REGEX)` = `fullmatch` with the compiled
+objects of `parse.py`) accepts a cpu / storage string exactly when the client-side parser returns a value, and a memory
+string exactly when the parser returns a value or the string is one of the `memory_types` words. -/
+theorem grammar_same_client_server (s : List Char) :
+    (serverAcceptsCpu s = true ↔ parseCpu s ≠ .noMatch) ∧
+    (serverAcceptsStorage s = true ↔ parseStorage s ≠ .noMatch) ∧
+    (serverAcceptsMemory s = true ↔ (parseMemory s ≠ .noMatch ∨ ∃ w ∈ memoryTypes, w.toList = s)) := by
+  refine ⟨?_, ?_, ?_⟩
+  · unfold serverAcceptsCpu parseCpu
+    cases matchSize cpuSuffixes cpuTrailingB s <;> simp
+  · unfold serverAcceptsStorage parseStorage
+    rw [parseBytes_ne_noMatch]
+  · unfold serverAcceptsMemory parseMemory
+    rw [parseBytes_ne_noMatch]
+    simp [List.any_eq_true]
+
 /-! ## exact values -/
 
 /-- the number of cores a cpu literal denotes: `m` means thousandths -/
